@@ -2,7 +2,7 @@
    (Data-race freedom in the sense of the Go memory model is below the grain of the machine: see DESIGN.md.) *)
 From stdpp Require Import gmap.
 From Ristretto Require Import Base.Word Cache.Policy Cache.PolicyProofs Cache.Store Cache.Machine Cache.MachineProofs
-  Cache.SyncProofs Cache.ProtoProofs Cache.ProgressProofs.
+  Cache.SyncProofs Cache.ProtoProofs Cache.ProgressProofs Gen.LockOrder Cache.LockOrder.
 Local Open Scope Z_scope.
 
 (* For every number of goroutines and every schedule of the listed calls (everything but Close): no send on /
@@ -65,6 +65,43 @@ Theorem C08_rest_means_done : forall c maxCost bdur now0 mon sched0 sched,
   (forall l, progress_label l -> mstep c s l = None) ->
   ~ busy s /\ s_buf s = [] /\ s_apend s = [] /\ (s_apc s = AIdle \/ s_apc s = AExited).
 Proof. exact rest_means_done. Qed.
+
+(* ---- below the grain of the machine: the mutexes themselves ----
+   Gen/LockOrder.v is regenerated from /repo's source on every run (tools/lockorder: go/types over cache.go, store.go,
+   ttl.go, policy.go, ring.go, sketch.go): the mutex classes, every pair (held, acquired) - directly or through callees -
+   and every blocking channel operation under a mutex.  For the source as it is now: every pair climbs the hierarchy
+   shard < expiry index < policy < metrics (so no class is ever acquired under itself: no second shard, no recursive
+   read lock), and nothing blocks on a channel while holding a mutex. *)
+Theorem C08_lock_order :
+  (forall c, In c lock_classes -> lock_rank c <> 0%nat) /\
+  (forall a b f, In (a, b, f) lock_edges -> (lock_rank a < lock_rank b)%nat) /\
+  lock_chanops = [].
+Proof.
+  split; [|split; [exact edges_climb|exact no_chanop_under_mutex]].
+  intros c Hc. pose proof order_ok_now as Hok. unfold order_ok in Hok.
+  apply andb_prop in Hok as [Hok _]. apply andb_prop in Hok as [Hok _].
+  rewrite forallb_forall in Hok. specialize (Hok _ Hc). unfold known_class in Hok.
+  intros E. rewrite E in Hok. discriminate.
+Qed.
+
+(* Hence, for any number of threads whose mutex acquisitions are among the analysed pairs: there is no cycle of threads
+   each waiting for a mutex held by the next ... *)
+Theorem C08_no_mutex_cycle : forall (T : Type) (held : T -> list String.string) (waits : T -> option String.string),
+  (forall t c h, waits t = Some c -> In h (held t) -> exists f, In (h, c, f) lock_edges) ->
+  forall t mid, ~ chain T held waits t mid t.
+Proof. exact no_mutex_cycle. Qed.
+
+(* ... and whoever blocks a waiting thread is either not waiting for a mutex (it is running inside a critical section -
+   it cannot be blocked on a channel there, C08_lock_order; critical sections are loop-free or proved terminating,
+   C09_terminates) or waits strictly higher in the hierarchy, which has four levels. *)
+Theorem C08_blocker_is_higher : forall (T : Type) (held : T -> list String.string) (waits : T -> option String.string),
+  (forall t c h, waits t = Some c -> In h (held t) -> exists f, In (h, c, f) lock_edges) ->
+  forall t u, blocked_by T held waits t u -> waits u = None \/ (wrank T waits t < wrank T waits u)%nat.
+Proof. exact blocker_is_higher. Qed.
+
+(* non-vacuity: the shard -> expiry-index nesting is there, with the functions it comes from *)
+Example C08_lock_order_nonvacuous : exists f, In (shard_class, expiry_class, f) lock_edges.
+Proof. eexists. vm_compute. left. reflexivity. Qed.
 
 (* non-vacuity: a reachable state with a goroutine blocked in Wait behind a gated item *)
 Example C08_blocked_wait_reachable :
